@@ -2,14 +2,13 @@
 
 * orthonormal matrices from explicit descriptors (products of permutations, reflections, planar rotations)
 * the geometric meaning of a bounding box: {c + R u : lo <= u <= hi} with |det R| = 1  =>  volume = prod(hi - lo)
-* joint prior densities of the toy parameter models as plain scipy.stats products
+* joint prior densities of the toy parameter models from the textbook formulas (products of conditionals)
 * objective functions with exactly representable values
 """
 import itertools
 import math
 
 import numpy as np
-import scipy.stats as ss
 
 WIDEN_TOL = 1e-3     # documented: limits closer than this are "too narrow" and get moved apart
 WIDEN_BY = 1e-3      # total widening (half on each side)
